@@ -598,9 +598,9 @@ pub mod simfs {
         }
     }
 
-    pub fn read<P: AsRef<Path>>(p: P) -> io::Result<Vec<u8>> {
-        let (k, d) = fetch(p.as_ref())?;
-        // non-gating fault exploration: the planned read misbehaves
+    /// content of a file as this run sees it: in the non-gating fault exploration the planned
+    /// read / open fails or delivers torn or corrupt content
+    fn content_with_hard_fault(d: &Arc<Vec<u8>>) -> io::Result<Arc<Vec<u8>>> {
         let fault = world::with(|w| {
             let idx = w.reads_seen;
             w.reads_seen += 1;
@@ -619,26 +619,29 @@ pub mod simfs {
                 _ => None,
             }
         });
-        let mut data = (*d).clone();
-        if let Some(h) = fault {
-            match h.kind {
-                world::HardKind::ReadEio => return Err(io::Error::new(io::ErrorKind::Other, "simulated EIO")),
-                world::HardKind::ReadEnoent => {
-                    return Err(io::Error::new(io::ErrorKind::NotFound, "simulated ENOENT"))
-                }
-                world::HardKind::Truncated => {
-                    let n = if data.is_empty() { 0 } else { (h.salt % data.len() as u64) as usize };
-                    data.truncate(n);
-                }
-                world::HardKind::BitFlip => {
-                    if !data.is_empty() {
-                        let i = (h.salt % data.len() as u64) as usize;
-                        data[i] ^= 1 << ((h.salt >> 32) % 8);
-                    }
-                }
-                _ => {}
+        let Some(h) = fault else { return Ok(d.clone()) };
+        let mut data = (**d).clone();
+        match h.kind {
+            world::HardKind::ReadEio => return Err(io::Error::new(io::ErrorKind::Other, "simulated EIO")),
+            world::HardKind::ReadEnoent => return Err(io::Error::new(io::ErrorKind::NotFound, "simulated ENOENT")),
+            world::HardKind::Truncated => {
+                let n = if data.is_empty() { 0 } else { (h.salt % data.len() as u64) as usize };
+                data.truncate(n);
             }
+            world::HardKind::BitFlip => {
+                if !data.is_empty() {
+                    let i = (h.salt % data.len() as u64) as usize;
+                    data[i] ^= 1 << ((h.salt >> 32) % 8);
+                }
+            }
+            _ => {}
         }
+        Ok(Arc::new(data))
+    }
+
+    pub fn read<P: AsRef<Path>>(p: P) -> io::Result<Vec<u8>> {
+        let (k, d) = fetch(p.as_ref())?;
+        let data = content_with_hard_fault(&d)?;
         world::with(|w| {
             w.stats.whole_file_reads += 1;
             w.stats.bytes_read += data.len() as u64;
@@ -646,7 +649,7 @@ pub mod simfs {
             pd.str(&k);
             w.event("read", pd.0, data.len() as u64);
         });
-        Ok(data)
+        Ok((*data).clone())
     }
 
     pub fn read_to_string<P: AsRef<Path>>(p: P) -> io::Result<String> {
@@ -689,6 +692,7 @@ pub mod simfs {
     impl File {
         pub fn open<P: AsRef<Path>>(p: P) -> io::Result<File> {
             let (k, d) = fetch(p.as_ref())?;
+            let d = content_with_hard_fault(&d)?;
             let io_seed = world::with(|w| w.decide_open(&k));
             Ok(File {
                 data: d,
